@@ -296,6 +296,13 @@ class FloatLiteral(Literal[float]):
     def __init__(self, token: TokenT, value: float):
         super().__init__(token, value)
 
+    def __str__(self) -> str:
+        mantissa, e, exponent = repr(self.value).partition("e")
+        if e and "." not in mantissa:
+            # `1e+16` would be read as an integer literal.
+            return f"{mantissa}.0e{exponent}"
+        return f"{mantissa}{e}{exponent}"
+
     def __eq__(self, other: object) -> bool:
         return isinstance(other, FloatLiteral) and self.value == other.value
 
